@@ -21,12 +21,13 @@ EXPLANATION = (
     "does the work is evaluated through, so no clause depends on where or under which name it lives. Indices are "
     "abstract records (space, spin, name, dummy id), sympy's singletons 0/1/-1 are integers. "
     "R06a: the bra-ket ordering as the constructors apply it: for 1- and 2-index groups over spaces x spins x numbered "
-    "names (incl. two distinct indices with equal keys) K(u,l,+1) and K(l,u,+1) are never both exchanged, exactly one is "
-    "for different (space, spin, number, letter) keys, none for equal keys, a group is not exchanged with itself, unequal "
-    "group sizes are refused. R06b (relational): for every index tuple of rank (1,1) and (2,2) (thorough: also (2,1), (3,3)) "
+    "names (incl. names that tie in (number, letter) such as i / i0 and two distinct index objects of one name) K(u,l,+1) "
+    "and K(l,u,+1) are never both exchanged and exactly one is whenever the groups differ (distinct indices never tie), "
+    "K(u,u,+1) is +(one object), unequal group sizes are refused. R06b (relational): for every index tuple of rank (1,1) and (2,2) (thorough: also (2,1), (3,3)) "
     "over an index pool and bra-ket symmetry 0/+1/-1 all orderings related by the declared permutational and bra-ket "
     "symmetry give the same canonical object with the prescribed relative sign, a repeated index in an antisymmetric group "
-    "gives zero and nothing else does, the canonical groups are the given groups (exchanged only under a bra-ket symmetry), "
+    "and the diagonal of a bra-ket antisymmetric tensor (upper group a permutation of the lower group) give zero and nothing "
+    "else does, the canonical groups are the given groups (exchanged only under a bra-ket symmetry), "
     "so unrelated tuples are never identified. R06c (formula): scenario inputs (both sort parities, both orientations, "
     "symmetry 0/+1/-1, a non-Index entry, invalid symmetry, repeated index): groups sorted ascending by the library's "
     "sort_idx_canonical, exchanged exactly when a symmetry is declared, all entries are indices and the sorted groups are "
@@ -56,11 +57,6 @@ ASSUMPTIONS = [
     "re-canonicalised with the complete declaration, everything else is left as it is)",
     "index tuples are explored up to rank (2,2) over a pool of 4-6 abstract indices (thorough: pool of 8, (2,1) and (3,3) samples); "
     "container clauses are decided on the model expressions listed in Scene.small / Scene.rich",
-    "the diagonal of a bra-ket antisymmetric tensor (upper group == lower group, bra_ket_sym=-1) is mathematically zero; "
-    "the constructor keeps it as an object - not counted as a forced zero here (reported separately)",
-    "bra-ket partners are only required to be identified when the two groups differ in (space, spin, name) of some "
-    "index: for two distinct Index objects with the same name, space and spin (possible because Index is a Dummy) "
-    "the comparison has no preference and d^{i}_{i'} / d^{i'}_{i} stay distinct (reported separately)",
     "re-applying an unchanged declaration is not distinguished from not applying it (same value); that a real expression "
     "is not processed again by make_real is decided by counting the container objects the call builds",
     "NormalOrdered containers are outside the model expressions",
@@ -86,14 +82,16 @@ def _name_key(n):
 
 
 def _ikey(s):
-    """Independent statement of the canonical key of one index."""
+    """Independent statement of the canonical key of one index: space, spin, number, letter and - so that two distinct
+    indices never tie ('i' / 'i0', two index objects of one name) - the identity of the dummy."""
     a = s.attrs
-    return (a["space"][0], a["spin"]) + _name_key(a["name"])
+    return (a["space"][0], a["spin"]) + _name_key(a["name"]) + (a["dummy_index"],)
 
 
 def _gkey(t):
     """Key of an index group as the bra-ket comparison sees it: spaces, then spins, then names."""
-    return ([s.attrs["space"][0] for s in t], [s.attrs["spin"] for s in t], [_name_key(s.attrs["name"]) for s in t])
+    return ([s.attrs["space"][0] for s in t], [s.attrs["spin"] for s in t],
+            [_name_key(s.attrs["name"]) + (s.attrs["dummy_index"],) for s in t])
 
 
 # ------------------------------------------------------------------ primitives
@@ -228,7 +226,7 @@ def r06a(ctx):
     """The bra-ket ordering as the constructor applies it: for sorted groups u != l exactly one of K(u,l) / K(l,u) has its
     groups exchanged (a strict total order on the (space, spin, name) keys => one canonical form)."""
     rule = "R06a"
-    names = ["i", "i1", "j2"] if ctx.tier != "thorough" else ["i", "j", "i1", "j2"]
+    names = ["i", "i0", "i1", "j2"] if ctx.tier != "thorough" else ["i", "i0", "j", "i1", "j2", "i01"]
     one = [(_ix(sp, s, n),) for sp in SPACES for s in (SPINS if ctx.tier == "thorough" else SPINS[:2]) for n in names]
     # two distinct index objects with the same (space, spin, name): equal keys
     one += [(_ix("occ", "", "i", tag="'"),), (_ix("virt", "a", "i1", tag="'"),)]
@@ -284,10 +282,10 @@ def r06a(ctx):
                   "are not identified", key=f"total {cname}")
         ctx.check(rule, K.fn, viol["equal"] is None, f"{cname}: equal keys: no exchange",
                   f"{cname}: groups with equal keys {viol['equal']} are exchanged", key=f"irreflexive {cname}")
-        flipped = [u for u in one[:9] for r in [K(u, u, -1)] if r[0] != "ok" or r[1] != 1]
+        flipped = [u for u in one[:9] for r in [K(u, u, 1)] if r[0] != "ok" or r[1] != 1]
         ctx.check(rule, K.fn, not flipped, f"{cname}: a group is not exchanged with itself",
-                  f"{cname}({list(flipped[0]) if flipped else ''}, the same group, bra_ket_sym=-1) is exchanged with itself "
-                  "(sign -1 or no object)", key=f"self {cname}")
+                  f"{cname}({list(flipped[0]) if flipped else ''}, the same group, bra_ket_sym=+1) does not give +(one object)",
+                  key=f"self {cname}")
         r = K((one[0][0],), (), 1)
         ctx.check(rule, K.fn, r[0] == "raise", f"{cname}: bra-ket symmetry with unequal group sizes refused",
                   f"{cname}: bra-ket symmetry with unequal numbers of upper and lower indices gives {r}", key=f"len {cname}")
@@ -365,6 +363,22 @@ def r06c(ctx):
                     why.append(f"sign is {sign:+d}, the declared symmetry prescribes {w_sign:+d}")
                 ctx.check(rule, K.fn, not why, f"{label}: sorted groups, exchange and sign as prescribed", f"{label}: " + "; ".join(why),
                           key=label)
+        # the diagonal: bra-ket antisymmetry forces zero, symmetry / no symmetry give the tensor
+        for up, lo in (((i,), (i,)), ((i, j), (i, j)), ((i, j), (j, i)), ((a, i), (i, a))):
+            for bks in (0, 1, -1):
+                r = K(up, lo, bks)
+                n += 1
+                label = f"{cname}({list(up)}, {list(lo)}, bra_ket_sym={bks})"
+                if bks == -1:
+                    ok, want = r[0] == "zero", "zero (d = -d)"
+                else:
+                    w_sign = (_parity_to(up, srt(up)) * _parity_to(lo, srt(lo))) if antisym else 1
+                    ok = r[0] == "ok" and r[1] == w_sign and _same_objs(r[2], srt(up)) and _same_objs(r[3], srt(lo))
+                    want = f"{w_sign:+d} the tensor with sorted groups"
+                ctx.check(rule, K.fn, ok, f"{label}: {want}", f"{label} gives {r}, expected {want}", key=label)
+        r = K((foreign, i), (foreign, i), -1)
+        ctx.check(rule, K.fn, r[0] == "ok", "entries that are not indices: no bra-ket treatment",
+                  f"{cname}([x, i], [x, i], bra_ket_sym=-1) with a non-Index entry gives {r}", key=f"{cname} diagonal foreign")
         r = K((i, j), (a, b), 2)
         ctx.check(rule, K.fn, r[0] == "raise", "bra_ket_sym=2 refused", f"invalid bra-ket symmetry 2 gives {r}", key=f"{cname} invalid bks")
         r = K((i, i), (a, b), 0)
@@ -382,10 +396,12 @@ def r06c(ctx):
 # ---------------------------------------------------------------------- R06b
 
 def _pool(tier):
-    p = [_ix("occ", "", "i"), _ix("occ", "", "j"), _ix("virt", "", "a"), _ix("occ", "a", "i"), _ix("general", "", "p"),
-         _ix("occ", "", "i1")]
+    """The first four indices are used for rank (2,2) in the quick tier; names that tie in (number, letter) - 'i' / 'i0' -
+    and a second, distinct index object named i are part of every tier."""
+    p = [_ix("occ", "", "i"), _ix("occ", "", "i0"), _ix("virt", "", "a"), _ix("occ", "", "i", tag="#2"),
+         _ix("occ", "a", "i"), _ix("general", "", "p"), _ix("occ", "", "j"), _ix("occ", "", "i1")]
     if tier == "thorough":
-        p += [_ix("virt", "b", "a"), _ix("occ", "", "i", tag="#2")]     # a second, distinct dummy named i
+        p += [_ix("virt", "b", "a"), _ix("virt", "", "a0")]
     return p
 
 
@@ -425,14 +441,14 @@ def r06b(ctx):
         ranks = [(1, 1)]
         samples = {}
         if impl not in seen or thorough:
-            samples[(2, 2)] = pool if thorough else pool[:4]
+            samples[(2, 2)] = pool[:8] if thorough else pool[:4]
         else:
             samples[(2, 2)] = pool[:3]
         if thorough:
             ranks.append((2, 1))
-            samples[(3, 3)] = pool[:3] + pool[5:6]
+            samples[(3, 3)] = pool[:4]
         seen[impl] = cname
-        n_eval = n_twins = 0
+        n_eval = 0
         bad = {}
 
         def flag(kind, msg):
@@ -469,6 +485,12 @@ def r06b(ctx):
                     if d != 0:
                         flag("pauli", f"{what}: repeated index in an antisymmetric group does not give zero")
                     continue
+                if bks == -1 and nu == nl and _is_perm(up, lo):
+                    # d^{pq}_{pq} = -d^{pq}_{pq}: the diagonal of a bra-ket antisymmetric tensor vanishes
+                    if d != 0:
+                        flag("diagonal", f"{what}: upper and lower group coincide, bra-ket antisymmetry forces zero, "
+                             f"the constructor gives an object")
+                    continue
                 if d == 0:
                     flag("zero", f"{what} evaluates to zero although the declared symmetry does not force it" +
                          ("" if antisym else " (a symmetric tensor with a repeated index inside a group does not vanish)"))
@@ -504,10 +526,7 @@ def r06b(ctx):
                                  f"{'+' if s2 > 0 else '-'}T: relative sign {s2 * sign:+d}, the permutation symmetry prescribes {want:+d}")
                 # bra-ket partner
                 o2 = table.get((kl, ku)) if nu == nl else None
-                twins = sorted(map(_ikey, up)) == sorted(map(_ikey, lo)) and not _is_perm(up, lo)
-                if twins:
-                    n_twins += 1        # distinct indices with equal (space, spin, name): see ASSUMPTIONS
-                elif o2 is not None and o2[2] != 0:
+                if o2 is not None and o2[2] != 0:
                     s2, cu2, cl2 = o2[2][:3]
                     if bks == 0:
                         if _same_objs(cu, cu2) and _same_objs(cl, cl2) and not (_is_perm(up, lo)):
@@ -521,6 +540,7 @@ def r06b(ctx):
                                  f"{list(up)}) = {'+' if s2 > 0 else '-'}T: relative sign {s2 * sign:+d}, bra_ket_sym prescribes {bks:+d}")
         for kind, fact in (("raises", "constructors return"), ("shape", "result is zero or +-(one object)"),
                            ("pauli", "repeated index in an antisymmetric group gives zero"),
+                           ("diagonal", "the diagonal of a bra-ket antisymmetric tensor is zero"),
                            ("zero", "nothing else gives zero"), ("identity", "class, name and symmetry kept"),
                            ("groups", "canonical groups are the given groups (exchanged only under bra-ket symmetry)"),
                            ("canonical", "all orderings inside the groups give one object"),
@@ -1057,14 +1077,14 @@ def decision_table(ctx):
         if conflict and expo != 1:
             continue
 
-        def build():
+        def build(diag=False):
             i, j, a, b = sc.i, sc.j, sc.a, sc.b
             if kind == "KroneckerDelta":
                 leaf = sc.delta(i, j)
             elif kind == "NonSymmetricTensor":
                 leaf = sc.nonsym(name, (a, i))
             else:
-                leaf = sc.tensor(kind, name, (b, a), (j, i), bks)
+                leaf = sc.tensor(kind, name, (b, a), (b, a) if diag else (j, i), bks)
             return t_pow(leaf, expo)
 
         def call(content):
@@ -1081,6 +1101,14 @@ def decision_table(ctx):
             ctx.bad("R06f", node, f"{label}: raises {o.exc}", key=f"table {label}")
             continue
         _report(ctx, sc, "R06f", node, label, f"table {label}", o.value)
+        if kind in TENSOR_CLASSES and bks == 0:
+            # upper group == lower group: declared antisymmetric the tensor (and with it the content) vanishes
+            label = label.replace(f"{kind} ", f"diagonal {kind} ")
+            o = _one(ctx, sc, label, lambda: build(True), call)
+            if o.kind != "return":
+                ctx.bad("R06f", node, f"{label}: raises {o.exc}", key=f"table {label}")
+                continue
+            _report(ctx, sc, "R06f", node, label, f"table {label}", o.value)
 
 
 def add_bra_ket_sym(ctx):
